@@ -1,7 +1,7 @@
 """C20 — compiled and interpreted execution agree (structural clauses)."""
 from . import scopes
 from ..core.report import DOMAIN_D
-from ..rules import eager, buffers, aabbtree, safediv, unpack
+from ..rules import eager, buffers, aabbtree, safediv, unpack, misc2
 from .common import e1
 
 
@@ -30,4 +30,5 @@ def run(idx, rep, tier):
         rep.ok("R-INVENTORY", f.key, f.where, "eager %s" % (f.eager[0][0] if f.eager else "lazy"))
     rep.extra["njit_functions"] = len(njit)
     rep.extra["eager_functions"] = len(eagerf)
+    misc2.r_dupcond(idx, rep, [m.name for m in idx.lib_modules()], floor=3)
     unpack.r_unpack(idx, rep, floor=106)
